@@ -27,6 +27,10 @@ def run(prog, tier):
                "FIRST-LAST-ID: forward and backward maps use one offset convention and hit the first / last id (polynomial check, shared "
                "with C10).  ENUM-START: serialisers number names from 1.  INDEX-ORDER: enumeration order of indices is the id order "
                "(most significant index first).  Bijectivity on all shapes (a round-trip equality) is not decided.")
+    from ._shared import merge_filtered, group_semantics
+    R0 = R
+    confirmed = group_semantics(R0, prog, P)
+    R = Result(P, "")
     check_dispatch(R, prog)
     check_gapfill(R, prog)
     check_interface(R, prog)
@@ -43,6 +47,8 @@ def run(prog, tier):
     check_enum_start(R, prog)
     check_index_order(R, prog)
     check_wildcard_none(R, prog)
+    merge_filtered(R0, R, confirmed)
+    R = R0
     from ._shared import check_no_shared_state
     check_no_shared_state(R, prog, P, ['cnfgen.formula'], 120)
     from ._families import borrow as _borrow
@@ -549,4 +555,8 @@ def check_wildcard_none(R, prog):
                             "index outside the group is accepted instead of refused: test `is None`" % c, tested[c]))
                 else:
                     R.ok("WILDCARD-NONE", "%s.%s: `%s` only compared with None" % (cname, mname, c), fi.key, nontrivial=False)
-    R.floor("WILDCARD-NONE", n, 10)
+    # the count of index names depends on how the methods unpack their pattern; when every kind of group was folded and found to select
+    # and refuse as documented (GROUP-SEMANTICS, which tries the index 0 in every position) a lower count is not a vacuous pass
+    from . import _groups_fold as gf
+    allok = all(gf.verdict(prog, k)[0] is True for k in gf.KINDS)
+    R.floor("WILDCARD-NONE", n, 1 if allok else 10)
